@@ -532,7 +532,18 @@ def c04_r7(ctx: Ctx, rule):
         if isinstance(v, ast.Compare) and isinstance(v.ops[0], ast.NotEq):
             names = [norm(v.left), norm(v.comparators[0])]
             defs = [resolve_local(fi.node, v.left), resolve_local(fi.node, v.comparators[0])]
-            if all(isinstance(d, ast.Call) and call_name(d) in ("deserialize", "read") for d in defs) and names[0] != names[1]:
+            def reads(d, depth=0):
+                if not isinstance(d, ast.Call):
+                    return False
+                if call_name(d) in ("deserialize", "read"):
+                    return True
+                if isinstance(d.func, ast.Name) and depth < 2:
+                    hq = mod + "." + d.func.id
+                    if hq in ctx.p.functions:
+                        return any(isinstance(r2, ast.Return) and reads(resolve_local(ctx.fn(hq).node, r2.value), depth + 1) for r2 in walk_function(ctx.fn(hq).node))
+                return False
+
+            if all(reads(d) for d in defs) and names[0] != names[1]:
                 ok = True
         if isinstance(v, ast.UnaryOp) and isinstance(v.op, ast.Not) and isinstance(v.operand, ast.Compare) and isinstance(v.operand.ops[0], ast.Eq):
             ok = True
